@@ -63,6 +63,13 @@ def P(x: int, lo: int, hi: int) -> 'int | None':
         return None
     if CONCRETE:
         return max(lo, min(hi, int(x)))
+    if _NATIVE:
+        # inside native(): the tracing flag is resumed for the ladder only (the comparisons and
+        # the branch on their result are methods of CrossHair's symbolic int / bool and need
+        # the flag, not the opcode events)
+        from crosshair.tracers import ResumedTracing
+        with ResumedTracing():
+            return pick(x, lo, hi)
     return pick(x, lo, hi)
 
 
@@ -80,6 +87,17 @@ def pickb(x: bool) -> bool:
     if x:
         return True
     return False
+
+
+def B(x: bool) -> bool:
+    """A concrete bool equal to the symbolic x (one solver-decided fork); usable inside native()."""
+    if CONCRETE:
+        return bool(x)
+    if _NATIVE:
+        from crosshair.tracers import ResumedTracing
+        with ResumedTracing():
+            return pickb(x)
+    return pickb(x)
 
 
 def tier() -> str:
@@ -128,3 +146,44 @@ def nt(fn, *a, **k):
             return fn(*a, **k)
         finally:
             mon.set_events(tool, ev)
+
+
+_NATIVE: list = []
+_USE_NATIVE = os.environ.get('VF_NATIVE', '1') == '1'
+
+
+def native(fn, *a, **k):
+    """Like nt(), for harness code that still holds symbolic ints: everything runs natively
+    EXCEPT the ladders inside P(), which switch tracing back on for their comparisons. The
+    harness code run this way must do nothing with a symbolic value but hand it to P()
+    (anything else raises CrossHair's 'operation on symbolic while not tracing')."""
+    if CONCRETE or not _USE_NATIVE:
+        return fn(*a, **k)
+    import sys
+    from crosshair.tracers import NoTracing, is_tracing
+    from crosshair import tracers
+    mon = getattr(sys, 'monitoring', None)
+    tool = getattr(tracers, 'SYS_MONITORING_TOOL_ID', None)
+    if not is_tracing() or mon is None or tool is None:
+        return fn(*a, **k)
+    with NoTracing():
+        ev = mon.get_events(tool)
+        if ev == 0:
+            return fn(*a, **k)
+        mon.set_events(tool, 0)
+        _NATIVE.append((tool, ev))
+        try:
+            return fn(*a, **k)
+        finally:
+            _NATIVE.pop()
+            mon.set_events(tool, ev)
+
+
+def natively(fn):
+    """Decorator form of native()."""
+    import functools
+
+    @functools.wraps(fn)
+    def wrapper(*a, **k):
+        return native(fn, *a, **k)
+    return wrapper
